@@ -102,6 +102,10 @@ struct SynthRng {
 	long illegal_site_target = -1, site_counter[2] = { 0, 0 };
 	int illegal_kind = 0;      // 0: distance sites (emit calls), 1: grammar sites (LZMA2 streams)
 	unsigned illegal_emitted = 0;
+	// set by emit() when the illegal symbol was an end-of-payload marker in the middle of the data:
+	// the caller declares this many more bytes than were produced (a marker exactly at the declared
+	// end is a different, separately checked case)
+	unsigned eopm_extra = 0;
 	bool site(int kind) { long n = site_counter[kind]++; return kind == illegal_kind && n == illegal_site_target; }
 	explicit SynthRng(uint64_t seed) : s(seed * 0x9E3779B97F4A7C15ull + 0x1234567) {}
 	uint64_t next() { s ^= s << 13; s ^= s >> 7; s ^= s << 17; return s * 0x2545F4914F6CDD1Dull; }
